@@ -709,7 +709,7 @@ fn exec_with(args: &Args) -> impl Fn(&Case, usize, &mut Out) -> bool + '_ {
 /// {-1.5 .. 1.5} and NaN/inf operands, every delay time 0..max+1 (integral and fractional),
 /// mem, scalar and tuple `self`, captured and assigned upvalues, function values with
 /// state, array indexing inside / outside the bounds. (name, samples, source)
-const TABLES: [(&str, usize, &str); 6] = [
+const TABLES: [(&str, usize, &str); 7] = [
     (
         "operators",
         49,
@@ -729,6 +729,13 @@ const TABLES: [(&str, usize, &str); 6] = [
         "closures",
         10,
         "fn mk(){\n  let c = 0.0\n  |x| {\n    c = c + x\n    c\n  }\n}\nfn adder(k){\n  |x| { x + k }\n}\nlet f = mk()\nlet add3 = adder(3.0)\nfn dsp(){\n  let g = mk()\n  (f(1.0), g(now), g(2.0), add3(now), adder(now)(1.0))\n}\n",
+    ),
+    (
+        // variables shared between a closure and its defining function / a sibling closure:
+        // every party must see every assignment
+        "shared_upvalues",
+        6,
+        "fn make(){\n  let x = 0.0\n  let inc = | | {\n    x = x + 1.0\n    x\n  }\n  let get = | | { x * 10.0 }\n  (inc, get)\n}\nlet (ginc, gget) = make()\nfn dsp(){\n  let x = now\n  let inc = | | {\n    x = x + 100.0\n    x\n  }\n  let peek = |k| { x * k }\n  let a = inc()\n  let b = inc()\n  let c = peek(2.0)\n  let ga = ginc()\n  (x, a, b, c, ga, gget())\n}\n",
     ),
     (
         "function_values",
@@ -911,7 +918,7 @@ pub fn meta(args: &Args) -> Value {
     let (ngen, stride) = budgets(args);
     json!({
         "level": "exploration",
-        "rule": format!("differential VM vs compiled emitted Rust. Cases: (t) 6 fixed operator tables (hand-written programs enumerating, from `now`, every numeric/logic operator over a 7x7 operand grid incl. negative, zero, NaN and inf operands, delay times 0..max+1, mem, scalar/tuple self, upvalues, function values with state, array indices in and out of bounds); (a) {ngen} random well-typed core-language programs from the typed generator (all features the transpiler's documentation claims, `%` included; shapes listed under quarantined_features are not generated because the VM itself miscompiles them), n in 8..40 samples, seeded dsp inputs (1/4 of the cases with NaN/inf/-0.0/subnormals); (b) every shipped source of lib/, examples/, tests/mmm (stride {stride}) that is not quarantined by name, among them the fixtures rust_codegen_test.rs runs. Per case: run on the VM through the CLI's code path (a program the VM refuses or crashes on is no case), Context::emit_rust on a plugin-free ExecContext (Err = refusal = fine and counted; panic = counted, not judged), append a main modelled on rust_codegen_test.rs (host gives now = sample index, samplerate = 48000, errors on every external call; call_main if present; call_dsp per sample with that sample's input words), rustc --edition=2024 -C opt-level=0, run the binary. Refuting: rustc rejects the source; binary exits non-zero or dies by a signal; word count of a sample differs; any output word differs bitwise from the VM's (NaN == NaN). Non-trivial = emit_rust Ok, rustc Ok, binary exit 0, all n samples compared equal and the VM output stream has at least two distinct values; distinct = hash of program text + run parameters."),
+        "rule": format!("differential VM vs compiled emitted Rust. Cases: (t) 7 fixed operator tables (hand-written programs enumerating, from `now`, every numeric/logic operator over a 7x7 operand grid incl. negative, zero, NaN and inf operands, delay times 0..max+1, mem, scalar/tuple self, upvalues shared between closures and their defining function, function values with state, array indices in and out of bounds); (a) {ngen} random well-typed core-language programs from the typed generator (all features the transpiler's documentation claims, `%` included; shapes listed under quarantined_features are not generated because the VM itself miscompiles them), n in 8..40 samples, seeded dsp inputs (1/4 of the cases with NaN/inf/-0.0/subnormals); (b) every shipped source of lib/, examples/, tests/mmm (stride {stride}) that is not quarantined by name, among them the fixtures rust_codegen_test.rs runs. Per case: run on the VM through the CLI's code path (a program the VM refuses or crashes on is no case), Context::emit_rust on a plugin-free ExecContext (Err = refusal = fine and counted; panic = counted, not judged), append a main modelled on rust_codegen_test.rs (host gives now = sample index, samplerate = 48000, errors on every external call; call_main if present; call_dsp per sample with that sample's input words), rustc --edition=2024 -C opt-level=0, run the binary. Refuting: rustc rejects the source; binary exits non-zero or dies by a signal; word count of a sample differs; any output word differs bitwise from the VM's (NaN == NaN). Non-trivial = emit_rust Ok, rustc Ok, binary exit 0, all n samples compared equal and the VM output stream has at least two distinct values; distinct = hash of program text + run parameters."),
         "assumptions": [
             "rustc on PATH (default toolchain) is the compiler the property means; linked against the same libm as the worker, so sin/cos/pow/ln agree bitwise if the same operation is applied",
             "`now` counts samples from 0 and the sample rate is 48000, as LocalBufferDriver gives them to the VM",
